@@ -111,7 +111,10 @@ def _cases_for(prog, limit, samples, seed, configs=("bexec", "brt", "aio", "aiot
     for c in configs:
         case = {"prog": prog, "config": c, "limit": limit, "samples": samples, "seed": seed}
         if c in ("aio", "aiot", "pool", "poole"):
-            n = len(_explore(case)["runs"])
+            try:
+                n = len(_explore(case)["runs"])
+            except Exception:  # noqa: reported per case by the runner (run_impl raises again)
+                n = 1
             chunks = max(1, -(-n // CHUNK))
             for k in range(chunks):
                 out.append(dict(case, chunk=[k, chunks]) if chunks > 1 else case)
